@@ -3,13 +3,17 @@ import collections
 from fractions import Fraction as F
 
 from props import _units as X
+from props import _ufault as UF
 
 ID = "C18"
 SECTIONS = ["units"]
 LEAN_MODULES = ["QExPy.Props.C18"]
 LEMMA_MODULES = ["QExPy.Lemmas.Units", "QExPy.Lemmas.UnitsDefs"]
 THEOREMS = ["QExPy.C18_pack_sound", "QExPy.C18_unpack_sound", "QExPy.C18_mul_div_dim",
-            "QExPy.C18_named_only_if_power", "QExPy.C18_clear", "QExPy.C18_dim_preserved"]
+            "QExPy.C18_named_only_if_power", "QExPy.C18_clear", "QExPy.C18_dim_preserved",
+            "QExPy.C18_define_reject_unchanged", "QExPy.C18_define_reject_iff",
+            "QExPy.C18_define_accept", "QExPy.C18_rejected_requests_invisible",
+            "QExPy.C18_clear_last"]
 RULE = ("define/clear/evaluate histories: definition chains (N = kg*m/s^2, J = N*m, W = J/s, "
         "Pa = N/m^2 and random compounds, each mentioning base symbols and earlier names, "
         "occasional redefinition in base symbols), trees as in C08 whose leaves are written in "
@@ -112,11 +116,18 @@ def gen_history(rng):
             dx = X.dim_tree(x, dh)
             if dx[0] == "ok" and not X.ok_exps(dx[1]):
                 bad = True
-        if bad or not X.float_ok(t, dh) or not X.float_ok(t, {}):
+        if bad:
+            continue
+        # other argument types / requests that are rejected (incl. failing re-definitions of an
+        # active name in the middle of the formula) / recalculation after such requests
+        t, _ = UF.decorate(rng, t, names, mix=(0.25, 0.25, 0.08))
+        if not X.float_ok(t, dh) or not X.float_ok(t, {}):
             continue
         trees.append(t)
     for t in trees:
         hist.append(["eval", t])
+    if trees and rng.random() < 0.45:
+        hist += fault_block(rng, dh, trees)
     if trees and rng.random() < 0.35 and defs:
         # redefine one name in base symbols, evaluate again
         name = rng.choice(names)
@@ -131,9 +142,73 @@ def gen_history(rng):
                     for x in X.subtrees(t)):
                 hist.append(["eval", t])
     hist.append(["clear"])
+    if rng.random() < 0.2:
+        # a definition that fails when nothing is defined (any more)
+        hist.append(["define-bad"] + UF.bad_define(rng, (), BASE))
     for t in trees:
         hist.append(["eval", t])
     return hist
+
+
+def name_probes(rng, name, dh):
+    """formulas that show whether `name` still means what the accepted definitions say:
+    named + expanded, named / base, (named * base) - (base * expanded)"""
+    def lf(u):
+        u = [(k, F(e)) for k, e in u]
+        rng.shuffle(u)
+        return ["leaf", X.units_json(u), X.unit_string(u, rng.choice(["*", X.DOT]))]
+    if name not in dh:
+        # never (successfully) defined: a plain symbol
+        b = "m" if name != "m" else "s"
+        return [["node", "div", [lf([(name, 1), (b, 1)]), lf([(b, 1)])]],
+                ["node", "add", [lf([(name, 2)]), ["node", "mul", [lf([(name, 1)]), lf([(name, 1)])]]]]]
+    ex = [(k, v) for k, v in X.expand([(name, F(1))], dh).items() if v != 0]
+    if not ex or any(v.denominator != 1 or abs(v) > 9 for _, v in ex):
+        return []
+    b = rng.choice(ex)[0]
+    out = [["node", rng.choice(["add", "sub"]), [lf([(name, 1)]), lf(ex)]],
+           ["node", "div", [lf([(name, 1)]), lf([(b, 1)])]]]
+    rest = [(k, v) for k, v in ex if k != b] + [(b, dict(ex)[b] + 1)]
+    rest = [(k, v) for k, v in rest if v != 0]
+    if rest:
+        out.append(["node", "sub", [["node", "mul", [lf([(name, 1)]), lf([(b, 1)])]], lf(rest)]])
+    if rng.random() < 0.5:
+        out.reverse()
+    return out
+
+
+def fault_block(rng, dh, trees):
+    """1-2 definitions that are REJECTED (malformed expression for an active name, for a new
+    name, malformed name), then formulas that mention the names concerned and the earlier
+    formulas again: the definitions must be exactly what they were"""
+    out = []
+    names = list(dh)
+    probes = []
+    for _ in range(rng.choice([1, 1, 2])):
+        name, expr, cls = UF.bad_define(rng, names, BASE)
+        out.append(["define-bad", name, expr, cls])
+        if name.isalpha() and name.isascii():
+            probes += name_probes(rng, name, dh)
+        elif cls == "bad-name":
+            # had the malformed name been registered, a result that is exactly its expression
+            # would be shown under it
+            ex = UF.ref_parse(expr)
+            if ex:
+                ex = [(k, v) for k, v in ex]
+                lf = lambda u: ["leaf", X.units_json(u), X.unit_string(u)]  # noqa: E731
+                probes.append(["node", "mul", [lf(ex[:1]), lf(ex[1:])]] if len(ex) > 1
+                              else ["node", "neg", [lf(ex)]])
+        # names defined through the name concerned must keep their meaning too
+        for other in names:
+            if other != name and any(k == name for k, _ in dh[other]) and rng.random() < 0.7:
+                probes += name_probes(rng, other, dh)[:1]
+    for t in probes[:5] + list(trees):
+        d = X.dim_tree(t, dh)
+        if d[0] in ("ok", "mismatch") and X.float_ok(t, dh) and all(
+                X.dim_tree(x, dh)[0] != "ok" or X.ok_exps(X.dim_tree(x, dh)[1])
+                for x in X.subtrees(t)):
+            out.append(["eval", t])
+    return out
 
 
 def corpus():
@@ -151,8 +226,23 @@ def corpus():
     t5 = ["node", "sqrt", [["node", "mul", [lf([("N", 1)]), lf([("N", 1)])]]]]
     t6 = ["powc", lf([("J", 2)]), 1, 2]
     t7 = ["node", "div", [lf([("J", -2)]), lf([("m", 1)])]]
-    return [[dN, dJ] + [["eval", t] for t in (t1, t2, t3, t4, t5, t6, t7)] + [["clear"]] +
+    base = [[dN, dJ] + [["eval", t] for t in (t1, t2, t3, t4, t5, t6, t7)] + [["clear"]] +
             [["eval", t] for t in (t1, t4)]]
+    # rejected definitions: a failing re-definition of N (bracket typo), of J, a malformed name,
+    # a failing first definition; after each the names mean what they meant
+    expN = lf([("kg", 1), ("m", 1), ("s", -2)])
+    p1 = ["node", "add", [lf([("N", 1)]), expN]]
+    p2 = ["node", "div", [lf([("N", 1)]), lf([("kg", 1)])]]
+    p3 = ["node", "sub", [["node", "div", [lf([("J", 1)]), lf([("m", 1)])]], expN]]
+    p4 = ["node", "div", [lf([("Wb", 1), ("m", 1)]), lf([("m", 1)])]]
+    for bad in (["N", "kg*m/s^2)", "redefinition-bad-expression"], ["J", "N m2", "redefinition-bad-expression"],
+                ["N 1", "kg*m", "bad-name"], ["Wb", "kg*m^", "new-name-bad-expression"]):
+        base.append([dN, dJ, ["eval", p1], ["define-bad"] + bad] + [["eval", t] for t in (p1, p2, p3, p4, t1, t3)]
+                    + [["clear"], ["define-bad"] + bad, ["eval", p4]])
+    # ... and in the middle of a formula
+    base.append([dN, dJ, ["eval", ["node", "add", [["fault", lf([("N", 1)]), "define", ["N", "kg*m/s^2)"]], expN]]],
+                 ["eval", p2], ["eval", p3]])
+    return base
 
 
 def gen_cases(rng, n):
@@ -168,7 +258,7 @@ def correspond(ctx):
     cases = gen_cases(ctx.rng, ctx.n(120, 6000))
     r = X.run_cases(ctx, ID, cases)
     nontrivial = set()
-    for (ci, t, dh, dm, o) in r.pop("evals"):
+    for (ci, t, dh, dm, o, si) in r.pop("evals"):
         if dh and (named_power(t, dh) or mixed_sum(t, dh)):
             nontrivial.add(X.case_hash([dm, t]))
     r["nontrivial"] = nontrivial
@@ -203,7 +293,12 @@ def replay(ctx, rp):
         return {"fails": False, "note": "replay file carries no concrete input", "payload": rp}
     fs = []
     obs = []
-    for (t, dh, dm, o) in X.run_history(q, h):
+    for (t, dh, dm, o, _) in X.run_history(q, h):
         obs.append({"formula": X.pretty_tree(t), "impl": o})
-        fs += X.judge_eval(ID, t, dh, o)
+        for f1 in X.judge_eval(ID, t, dh, o):
+            f1["history"] = h          # a failure re-found from a corpus file stays replayable
+            prefix = [st for st in h if st[0] != "eval"]
+            if prefix:
+                f1["input"] += "  with " + X.describe_prefix(prefix)
+            fs.append(f1)
     return {"fails": bool(fs), "history": h, "impl": obs, "failures": fs}
